@@ -543,8 +543,8 @@ def looped_contract(box):
             raise SelectorError('_as_primitive is no longer decorated with loop(list, tuple)')
         v = args[0].t
         ex.use('callee contract:loop(list, tuple)(f)(x) is f(x) for x not a list / tuple; for a list / tuple it is a new container of the same class and length '
-               'whose j-th element is the result on x[j] (loops._wrapped: C19 _wrapped.leaf.* / _wrapped.list.*; wrapper.__call__ forwarding: C18)')
-        ex.use('assumed contract:loops.wrapped hands a single positional argument on to loops._wrapped(arg, (), {}) (its prelude is frame-checked only, C19)')
+               'whose j-th element is the result on x[j] (wrapper.__call__ forwards to wrapped: C18 wrapper.__call__.*; loops.wrapped hands a single positional '
+               'argument on to loops._wrapped(x, (), {}): C19 wrapped.positional.*; loops._wrapped: C19 _wrapped.leaf.* / _wrapped.list.*)')
         R = fresh_int('as_primitive')
         leaf = Not(is_seq(v))
         sub = st.fork(); sub.pc = st.pc + list(st.guards) + [leaf]; sub.guards = []; sub.pending = []
